@@ -248,7 +248,6 @@ func (cc *cacheController) coRead(r ccReadReq) ccReadResp {
 						return cc.read.ExecuteWithCheckpoint(r, cc.coReadFromL1)
 					} else {
 						// Fetch from memory, sync to L3, sync to L1
-						l3Addr, l3Data := cc.mmu.fetchCacheLine(r.addrs[0], l3CacheLineSize)
 						return cc.read.ExecuteWithCheckpointAfter(r, latency.MemoryAccess, func(r ccReadReq) ccReadResp {
 							return cc.read.ExecuteWithCheckpoint(r, func(r ccReadReq) ccReadResp {
 								mu := cc.msi.getL3Lock(r.addrs)
@@ -257,6 +256,9 @@ func (cc *cacheController) coRead(r ccReadReq) ccReadResp {
 								}
 
 								return cc.read.ExecuteWithCheckpointAfter(r, latency.L3Access, func(r ccReadReq) ccReadResp {
+									// The block is copied when it enters L3, not when the request started:
+									// a line written back to memory in between must not be lost
+									l3Addr, l3Data := cc.mmu.fetchCacheLine(r.addrs[0], l3CacheLineSize)
 									shouldEvict := cc.pushLineToL3(l3Addr, l3Data)
 									mu.Unlock()
 									if shouldEvict != nil {
@@ -351,7 +353,6 @@ func (cc *cacheController) coWrite(r ccWriteReq) ccWriteResp {
 				})
 			} else {
 				// Fetch from memory, sync to L3, sync to L1
-				l3Addr, l3Data := cc.mmu.fetchCacheLine(r.addrs[0], l3CacheLineSize)
 				return cc.write.ExecuteWithCheckpointAfter(r, latency.MemoryAccess, func(r ccWriteReq) ccWriteResp {
 					return cc.write.ExecuteWithCheckpointAfter(r, latency.L3Access, func(r ccWriteReq) ccWriteResp {
 						mu := cc.msi.getL3Lock(r.addrs)
@@ -360,6 +361,8 @@ func (cc *cacheController) coWrite(r ccWriteReq) ccWriteResp {
 						}
 
 						mu.Unlock()
+						// The block is copied when it enters L3 (see coRead)
+						l3Addr, l3Data := cc.mmu.fetchCacheLine(r.addrs[0], l3CacheLineSize)
 						shouldEvict := cc.pushLineToL3(l3Addr, l3Data)
 						if shouldEvict != nil {
 							pending := cc.msi.evictL3ExtraCacheLine(cc.id, shouldEvict.Boundary[0])
